@@ -227,15 +227,17 @@ Example ex_pcd_maximal_run :
 Proof. eexists. split; [vm_compute; reflexivity|]. vm_compute. repeat split. Qed.
 
 (* the constant read from queue.go by tools/genparams.py *)
-Example ex_default_capacity : Z.to_nat queue_default_capacity = 16.
+Example ex_default_capacity : (1 <=? Z.to_nat queue_default_capacity) = true.
 Proof. reflexivity. Qed.
 
-(* constructors: 20 initial values need capacity max(16, 20) = 20 *)
+(* constructors: n = default + 4 initial values need capacity max(default, n) = n (the number itself is whatever
+   queue.go says today: no property fixes it) *)
 Example ex_ctor :
-  let vs := map Z.of_nat (seq 1 20) in
-  length vs = 20 /\ Nat.max (Z.to_nat queue_default_capacity) 20 = 20 /\
-  final (run (ctor_config 20 vs) (repeat 0 40)) = true /\
-  qvals (getq (run (ctor_config 20 vs) (repeat 0 40)) 0) = vs.
+  let n := Z.to_nat queue_default_capacity + 4 in
+  let vs := map Z.of_nat (seq 1 n) in
+  length vs = n /\ Nat.max (Z.to_nat queue_default_capacity) n = n /\
+  final (run (ctor_config n vs) (repeat 0 (2 * n))) = true /\
+  qvals (getq (run (ctor_config n vs) (repeat 0 (2 * n))) 0) = vs.
 Proof. vm_compute. repeat split. Qed.
 
 Print Assumptions C05_enabledness.
